@@ -110,6 +110,13 @@ class Gen:
     def fin_cond(self, depth=0):
         r = self.rng
         x = r.random()
+        if depth == 0 and len(self.fin) >= 2 and r.random() < 0.08:
+            # disjunction of equality atoms over two different variables with different constants: not exclusive
+            v, w = r.sample(list(self.fin), 2)
+            a = r.choice(sorted(self.fin[v]))
+            bs = [q for q in sorted(self.fin[w]) if q != a] or sorted(self.fin[w])
+            self.feat("cond-or-eq-atoms-different-variables")
+            return ("or", ("atom", var(v), "==", num(a)), ("atom", var(w), "==", num(r.choice(bs))))
         if depth >= 2 or x < 0.6:
             return self.fin_cond_atom()
         if x < 0.75:
@@ -137,6 +144,11 @@ class Gen:
         elif kind == "cat":
             k = r.choice([2, 3, 4])
             ps = self._prob_vector(k)
+            if k >= 3 and r.random() < 0.3:
+                # an outcome of probability exactly 0 before the last position: the outcomes keep their indices
+                ps = self._prob_vector(k - 1)
+                ps.insert(r.randrange(0, k - 1), F(0))
+                self.feat("fin-categorical-zero-probability-inside")
             vals = {F(i) for i in range(k)}
             upd = ("draw", "Categorical", [num(p) for p in ps])
             self.feat("fin-categorical")
@@ -276,7 +288,20 @@ class Gen:
             ps = self._prob_vector(k)
             if self.profile == "symbolic" and k == 2 and r.random() < 0.6:
                 pe = self.prob_expr()
+                if pe[0] == "var" and r.random() < 0.5:
+                    # compound, unparenthesized probability expressions (valid for every p in (0,1)); the last one stays implicit
+                    pe = r.choice([binop("-", num(1), pe), binop("/", pe, num(2)), binop("-", num(F(1, 2)), binop("/", pe, num(4))),
+                                   binop("+", binop("/", pe, num(3)), num(F(1, 3))), binop("-", num(1), binop("/", pe, num(2)))])
+                    self.feat("symbolic-prob-compound-expression")
                 alts = [(alts[0][0], pe), (alts[1][0], binop("-", num(1), pe))]
+            elif self.profile == "symbolic" and k == 3 and r.random() < 0.6:
+                pe = self.prob_expr()
+                if pe[0] == "var":
+                    p1, p2 = binop("/", pe, num(2)), binop("-", num(F(1, 2)), binop("/", pe, num(4)))
+                    alts = [(alts[0][0], p1), (alts[1][0], p2), (alts[2][0], binop("-", binop("-", num(1), p1), p2))]
+                    self.feat("symbolic-prob-compound-expression")
+                else:
+                    alts = [(e, num(p)) for (e, _), p in zip(alts, ps)]
             else:
                 alts = [(e, num(p)) for (e, _), p in zip(alts, ps)]
             self.feat("data-prob-choice")
@@ -464,7 +489,16 @@ class Gen:
         if r.random() < 0.1:
             els = [("assign", "y", ("poly", add(var("y"), num(1))))]
         body.append(("if", branches, els))
-        if r.random() < 0.6:
+        if r.random() < 0.25:
+            # a second, separate condition on a value computed from the same draw: the two abstracted events are dependent
+            # although they share no variable name (Polar must refuse)
+            kk = r.choice([F(2), F(1, 2), F(3)])
+            init.append(("assign", "w2", ("poly", num(0))))
+            body.append(("assign", "w2", ("poly", scaled(kk, var("u")))))
+            t2 = kk * (a + (b - a) * r.choice([F(1, 2), F(1, 3), F(3, 4)]))
+            body.append(("if", [(("atom", var("w2"), r.choice([">", "<"]), num(t2)), [("assign", "y", ("poly", add(var("y"), num(1))))])], None))
+            self.feat("abstract-second-condition-on-derived-value")
+        elif r.random() < 0.6:
             body.append(("assign", "y", ("poly", add(var("y"), r.choice([var("x"), var("u"), mul(var("u"), var("u"))])))))
         self.init = init
         self.data = ["x", "y"]
@@ -822,6 +856,24 @@ class Gen:
         elif x < 0.8 and all(q.denominator == 1 for q in vals):
             g = ("atom", var(v), r.choice(["<", "<=", ">", ">="]), num(r.choice(vals)))
             self.feat("guard-ineq")
+            # prefer an inequality that at least two values of some variable satisfy and at least one violates (the normalized
+            # guard is a disjunction of equalities then)
+            import operator
+            ops = {"<": operator.lt, "<=": operator.le, ">": operator.gt, ">=": operator.ge}
+            cands = []
+            for w in names:
+                ws = sorted(self.fin[w])
+                if len(ws) < 3 or any(q.denominator != 1 for q in ws):
+                    continue
+                for cop, f in ops.items():
+                    for a in ws:
+                        sat = sum(1 for q in ws if f(q, a))
+                        if sat >= 2 and sat < len(ws):
+                            cands.append((w, cop, a))
+            if cands and r.random() < 0.75:
+                w, cop, a = r.choice(cands)
+                g = ("atom", var(w), cop, num(a))
+                self.feat("guard-ineq-several-values")
         else:
             g = self.fin_cond()
             self.feat("guard-compound")
